@@ -195,7 +195,9 @@ def main():
                 if kf: known_hits.append((kf, job.name, kind, msg, confirmed))
                 else: violations.append((job.name, kind, msg, where, confirmed, detail, len(items)))
             else:
-                inconclusive.append('%s: UNCONFIRMED candidate (%s) %s @ %s -- %s' % (job.name, kind, msg, where[:200], detail))
+                first_model = next((m_ for (_k, _m, _w, m_) in items if m_ is not None), None)
+                inconclusive.append('%s: UNCONFIRMED candidate (%s) %s @ %s -- %s [inputs of one candidate: %s]' % (job.name, kind, msg, where[:200], detail,
+                                    ' '.join(str(fr) for (_n, _k2, fr) in first_model) if first_model else '-'))
     wall = time.time() - t0
     # ---------------- evidence
     ev = dict(property_id=prop, tier=tier, seed=seed, level='model_checking',
